@@ -68,6 +68,7 @@ def run(chk: Check) -> None:
     _symexpr_dict(chk, abc)
     _index_unchanged(chk)
     _operators(chk)
+    _int_bounds(chk)
     _materialised(chk, types)
     own = ownership(repo)
     k = 0
@@ -547,3 +548,93 @@ def _materialised(chk: Check, types: TypeEnv) -> None:
                        "list/tuple copy of the caller's iterable (%s): assigning another owner's live "
                        "list moves modules out of it while it is being iterated, skipping every other one"
                        % (f.qualname, it, "; ".join(unparse(b.value)[:40] for b in binds) or "unbound"), 2)
+
+
+def _int_bounds(chk: Check) -> None:
+    """a hand-written bounds test for an integer index must accept exactly -len <= i < len"""
+    from .bounds import Outside, _constraint, _lin, _tight, NEG
+    repo = chk.repo
+    lw = repo.cls("ListWrapper")
+    f = lw.methods.get("__setitem__")
+    if f is None:
+        return
+    chk.saw(f)
+    idx = f.param_names()[1]
+    al = local_aliases(f.node)
+
+    def sym(e: ast.AST):
+        # i, i.__index__(), a local bound to either -> I ; len(self) / len(self._data) -> LEN
+        if isinstance(e, ast.Name) and e.id == idx:
+            return {"I": 1}, 0
+        if isinstance(e, ast.Name) and e.id in al:
+            return sym(al[e.id])
+        if isinstance(e, ast.Call) and isinstance(e.func, ast.Attribute) and e.func.attr == "__index__" \
+                and not e.args:
+            return sym(e.func.value)
+        if isinstance(e, ast.Call) and attr_path(e.func) == ("len",) and len(e.args) == 1 and \
+                attr_path(e.args[0]) in ((f.self_name,), (f.self_name, "_data")):
+            return {"LEN": 1}, 0
+        return None
+    raises = [r for r in walk_no_nested(f.node) if isinstance(r, ast.Raise) and r.exc is not None
+              and "IndexError" in unparse(r.exc)]
+    if not raises:
+        chk.ob("R16.6", "ListWrapper.__setitem__:int-bounds", True, f.loc(),
+               "no hand-written bounds test (the wrapped list validates)", 0)
+        return
+    # the condition under which the IndexError is NOT raised
+    r = raises[0]
+    par = getattr(r, "_parent", None)
+    cons = []
+    ok = False
+    why = ""
+    try:
+        if isinstance(par, ast.If) and r in par.orelse:
+            # raised in the else of an if/elif chain: valid iff the innermost elif test holds
+            tests = [par.test]
+            keep_when = True
+        elif isinstance(par, ast.If) and r in par.body:
+            tests = [par.test]
+            keep_when = False
+        else:
+            raise Outside("IndexError is not raised under a simple test")
+        for t in tests:
+            if isinstance(t, ast.Call) and attr_path(t.func) == ("isinstance",):
+                raise Outside("guard is the slice test")
+            parts = t.values if isinstance(t, ast.BoolOp) and isinstance(t.op, ast.And) else [t]
+            if not keep_when and len(parts) > 1:
+                raise Outside("negated conjunction")
+            if not keep_when and isinstance(t, ast.BoolOp) and isinstance(t.op, ast.Or):
+                parts = t.values
+            for p_ in parts:
+                if not isinstance(p_, ast.Compare):
+                    raise Outside("not a comparison: %s" % unparse(p_))
+                terms = [p_.left] + list(p_.comparators)
+                for a, op, b in zip(terms, p_.ops, terms[1:]):
+                    on = type(op).__name__
+                    if on not in NEG:
+                        raise Outside("operator in %s" % unparse(p_))
+                    if not keep_when:
+                        on = NEG[on]
+                    la, lb = _lin(a, sym), _lin(b, sym)
+                    # move everything to  I (+/-) LEN  form:  x - y <= c  with y possibly "-LEN"
+                    d = dict(la[0])
+                    for k_, v_ in lb[0].items():
+                        d[k_] = d.get(k_, 0) - v_
+                    d = {k_: v_ for k_, v_ in d.items() if v_}
+                    k0 = la[1] - lb[1]
+                    cons.append((tuple(sorted(d.items())), on, k0))
+        want = {((("I", 1), ("LEN", -1)), "Lt", 0), ((("I", 1), ("LEN", 1)), "GtE", 0),
+                ((("I", -1), ("LEN", -1)), "LtE", 0), ((("I", -1), ("LEN", 1)), "Gt", 0)}
+        norm = set()
+        for d_, on, k0 in cons:
+            norm.add((d_, on, k0))
+        upper = any(x in norm for x in [((("I", 1), ("LEN", -1)), "Lt", 0), ((("I", -1), ("LEN", 1)), "Gt", 0)])
+        lower = any(x in norm for x in [((("I", 1), ("LEN", 1)), "GtE", 0), ((("I", -1), ("LEN", -1)), "LtE", 0)])
+        ok = upper and lower and len(norm) == 2
+        why = "accepts %s" % sorted(norm)
+    except Outside as e:
+        ok = False
+        why = str(e)
+    chk.ob("R16.6", "ListWrapper.__setitem__:int-bounds", ok, f.loc(r),
+           "the bounds test for an integer index must accept exactly -len <= i < len (like list); %s"
+           % why, 3)
